@@ -78,7 +78,8 @@ impl TryReadFromBytes for SequenceNumberSet {
     fn try_read_from_bytes(data: &mut &[u8], endianness: &Endianness) -> RtpsMessageResult<Self> {
         let base = SequenceNumber::try_read_from_bytes(data, endianness)?;
         let num_bits = u32::try_read_from_bytes(data, endianness)?;
-        if num_bits > 256 {
+        // A valid set has a non-negative base and at most 256 bits, all of them representable
+        if num_bits > 256 || base < 0 || base.checked_add(num_bits as i64).is_none() {
             return Err(RtpsMessageError::InvalidData);
         }
         let number_of_bitmap_elements = num_bits.div_ceil(32) as usize; //In standard referred to as "M"
@@ -139,6 +140,10 @@ impl FragmentNumberSet {
     ) -> RtpsMessageResult<Self> {
         let base = FragmentNumber::try_read_from_bytes(data, endianness)?;
         let num_bits = u32::try_read_from_bytes(data, endianness)?;
+        // A valid set has at most 256 bits, all of them representable
+        if num_bits > 256 || base.checked_add(num_bits).is_none() {
+            return Err(RtpsMessageError::InvalidData);
+        }
         let number_of_bitmap_elements = num_bits.div_ceil(32) as usize; //In standard referred to as "M"
         let mut bitmap = [0; 8];
 
